@@ -54,6 +54,12 @@ theorem labelOverhead_tie (label : Codec.Bytes) :
     simp only [this, if_false, List.isEmpty_cons, Bool.false_eq_true]
     omega
 
+/-- `Memberlist.encryptionVersion` (net.go): protocol version 1 seals in the first format (padded blocks),
+every other protocol version in the second -/
+theorem encryptionVersion_tie (proto : Int) : encryptionVersion proto = if proto = 1 then 0 else 1 := by
+  unfold encryptionVersion
+  by_cases h : proto = 1 <;> simp [h]
+
 /-- nothing was left out of the translated bodies -/
 theorem dropped_calls_none : droppedCalls = [] := by decide
 
